@@ -270,7 +270,8 @@ struct Scenario<'a> {
     digest: &'a dyn Fn() -> String,
 }
 
-fn run_scenario(sc: &Scenario, ops: &[Op], rng: &mut Rng, ev: &mut Ev, case: u64, sigs: &mut HashSet<u64>, max_threads: usize, perms: usize) {
+#[allow(clippy::too_many_arguments)]
+fn run_scenario(sc: &Scenario, ops: &[Op], rng: &mut Rng, ev: &mut Ev, case: u64, sigs: &mut HashSet<u64>, max_threads: usize, perms: usize, hammer_iters: usize) {
     let d0 = (sc.digest)();
     let reference: Vec<Res> = ops.iter().map(|op| (sc.fresh)(op)).collect();
     for r in &reference {
@@ -336,6 +337,68 @@ fn run_scenario(sc: &Scenario, ops: &[Op], rng: &mut Rng, ev: &mut Ev, case: u64
             }
         }
     }
+    // (iv) hammer: many threads repeat a small pool of cheap single-query operations in
+    // independent random orders, starting together; every answer is compared with the reference
+    let pool: Vec<usize> = (0..ops.len())
+        .filter(|&k| matches!(ops[k], Op::One(_) | Op::Scalar(_) | Op::LeftOf(_) | Op::InRange(_)) && !reference[k].is_panic())
+        .take(24)
+        .collect();
+    if !pool.is_empty() && hammer_iters > 0 {
+        let threads = max_threads.clamp(2, 8);
+        let barrier = std::sync::Barrier::new(threads);
+        let seeds: Vec<u64> = (0..threads).map(|_| rng.next_u64()).collect();
+        let bad: Vec<Option<(usize, Res)>> = std::thread::scope(|s| {
+            let hs: Vec<_> = seeds
+                .iter()
+                .map(|&seed| {
+                    let (pool, reference, barrier, shared) = (&pool, &reference, &barrier, sc.shared);
+                    s.spawn(move || {
+                        let mut r = Rng::new(seed);
+                        barrier.wait();
+                        for _ in 0..hammer_iters {
+                            let k = pool[r.below(pool.len())];
+                            let got = shared(&ops[k]);
+                            if !same(&got, &reference[k]) {
+                                return Some((k, got));
+                            }
+                        }
+                        None
+                    })
+                })
+                .collect();
+            hs.into_iter().map(|h| h.join().expect("hammer thread panicked")).collect()
+        });
+        ev.add("hammer_ops", (threads * hammer_iters) as u64);
+        ev.add("hammer_phases", 1);
+        if let Some((k, got)) = bad.into_iter().flatten().next() {
+            ev.violation(
+                "C17:depends-on-concurrency",
+                &format!(
+                    "{}: under {threads} threads hammering the shared interpolator, op {:?} gave {} but {} on a fresh interpolator",
+                    sc.name,
+                    ops[k],
+                    got.detail(),
+                    reference[k].detail()
+                ),
+                case,
+                replay(k).set("phase", "hammer").set("threads", threads),
+            );
+            return;
+        }
+        // and afterwards, single-threaded, the answers must still be the reference ones
+        for &k in &pool {
+            let got = (sc.shared)(&ops[k]);
+            if !same(&got, &reference[k]) {
+                ev.violation(
+                    "C17:depends-on-history",
+                    &format!("{}: after concurrent use, op {:?} gives {} but {} on a fresh interpolator", sc.name, ops[k], got.detail(), reference[k].detail()),
+                    case,
+                    replay(k).set("phase", "after-hammer"),
+                );
+                return;
+            }
+        }
+    }
     let d1 = (sc.digest)();
     ev.add("state_digests_compared", 1);
     if d0 != d1 {
@@ -348,6 +411,7 @@ fn main() {
     let n_cases = args.budget(24, 1500);
     let hist_len = args.extra_u64("history").unwrap_or(if args.thorough() { 300 } else { 120 }) as usize;
     let max_threads = args.extra_u64("max-threads").unwrap_or(16) as usize;
+    let hammer_iters = args.extra_u64("hammer").unwrap_or(if args.thorough() { 200_000 } else { 30_000 }) as usize;
     let perms = args.extra_u64("perms").unwrap_or(if args.thorough() { 10 } else { 3 }) as usize;
     let mut ev = Ev::new();
     let mut sigs: HashSet<u64> = HashSet::new();
@@ -377,7 +441,7 @@ fn main() {
                 let sc = Scenario { name: "Interp1D<owned, Ix2, Linear>".into(), fresh: Box::new(|op| exec1(&mk(), op)), shared: &run, digest: &dig };
                 ev.case(hash_bits(&[&bits_of(&x)], &["lin"]), true);
                 ev.count("scenario", &sc.name);
-                run_scenario(&sc, &ops, &mut rng, &mut ev, case, &mut sigs, max_threads, perms);
+                run_scenario(&sc, &ops, &mut rng, &mut ev, case, &mut sigs, max_threads, perms, hammer_iters);
             }
             // CubicSpline (random boundary) over owned storage, Ix2, extrapolating sometimes
             1 => {
@@ -412,7 +476,7 @@ fn main() {
                 let run = |op: &Op| exec1(&shared, op);
                 let dig = || format!("{:?}", shared);
                 let sc = Scenario { name, fresh: Box::new(|op| exec1(&mk(), op)), shared: &run, digest: &dig };
-                run_scenario(&sc, &ops, &mut rng, &mut ev, case, &mut sigs, max_threads, perms);
+                run_scenario(&sc, &ops, &mut rng, &mut ev, case, &mut sigs, max_threads, perms, hammer_iters);
             }
             // Bilinear over owned storage, Ix3
             2 => {
@@ -442,7 +506,7 @@ fn main() {
                 let sc = Scenario { name: "Interp2D<owned, Ix3, Bilinear>".into(), fresh: Box::new(|op| exec2(&mk(), op, &ymap)), shared: &run, digest: &dig };
                 ev.case(hash_bits(&[&bits_of(&x), &bits_of(&y)], &["bil"]), true);
                 ev.count("scenario", &sc.name);
-                run_scenario(&sc, &ops, &mut rng, &mut ev, case, &mut sigs, max_threads, perms);
+                run_scenario(&sc, &ops, &mut rng, &mut ev, case, &mut sigs, max_threads, perms, hammer_iters);
             }
             // periodic spline with extrapolation over shared (ArcArray) storage, dynamic dimension
             _ => {
@@ -465,7 +529,7 @@ fn main() {
                 let sc = Scenario { name: "Interp1D<shared, IxDyn, CubicSpline periodic+extrapolate>".into(), fresh: Box::new(|op| exec1(&mk(), op)), shared: &run, digest: &dig };
                 ev.case(hash_bits(&[&bits_of(&x), &bits_of_arr(&data)], &["per"]), true);
                 ev.count("scenario", &sc.name);
-                run_scenario(&sc, &ops, &mut rng, &mut ev, case, &mut sigs, max_threads, perms);
+                run_scenario(&sc, &ops, &mut rng, &mut ev, case, &mut sigs, max_threads, perms, hammer_iters);
             }
         }
     }
